@@ -150,7 +150,23 @@ theorem view_live {c : BCur} {l : Bytes} (hv : BCur.view src segs c = some l) : 
     exact hl.1
   · cases hv
 
-theorem fcl_facts (F : SegFacts src segs) (o cl : UInt8) (opts : FindClosureOptions) (lo : Int) :
+/-- the closer `scanLine` finds on the peeked line of the cursor is not one of the padding spaces in front of it -/
+theorem found_behind_pad {c : BCur} {bs : Bytes} (hv : BCur.view src segs c = some bs) {o cl : UInt8} (hcl : cl ≠ 32)
+    {cs ne : Bool} {op cso i : Nat} (hsc : scanLine o cl cs ne bs 0 op cso = .found i) : c.pad ≤ (i : Int) := by
+  have hb := scanLine_found_closer _ _ _ _ _ _ _ _ _ hsc
+  simp only [Nat.sub_zero] at hb
+  unfold BCur.view at hv
+  split at hv
+  · simp only [Option.some.injEq] at hv
+    rw [← hv] at hb
+    by_cases hlt : i < c.pad.toNat
+    · rw [List.getElem?_append_left (by simpa [spaces] using hlt)] at hb
+      simp only [spaces, List.getElem?_replicate, hlt, if_true, Option.some.injEq] at hb
+      exact absurd hb.symm hcl
+    · omega
+  · cases hv
+
+theorem fcl_facts (F : SegFacts src segs) (o cl : UInt8) (hcl : cl ≠ 32) (opts : FindClosureOptions) (lo : Int) :
     ∀ (fuel opened cso : Nat) (ret : Option (List Segment)) (c : BCur) x c', BWF segs c → lo ≤ c.p →
     (∀ s ∈ ret.getD [], lo ≤ s.start ∧ s.start ≤ s.stop) →
     findClosureLoop (BCur.ops src segs) o cl opts fuel opened cso ret c = .ok (x, c') →
@@ -190,6 +206,7 @@ theorem fcl_facts (F : SegFacts src segs) (o cl : UInt8) (opts : FindClosureOpti
             · exact hret s hs
             · subst hs
               simp only [Segment.withStop, BCur.seg]
+              have hpad := found_behind_pad hv hcl hsc
               exact ⟨hlo, by omega⟩
           · cases ha
       · simp only [pure, Except.pure, Except.ok.injEq, Prod.mk.injEq] at h
@@ -211,7 +228,7 @@ theorem fcl_facts (F : SegFacts src segs) (o cl : UInt8) (opts : FindClosureOpti
               · exact hret s hs
               · subst hs; simp only [BCur.seg]; exact ⟨hlo, by omega⟩) h
 
-theorem findClosure_facts (F : SegFacts src segs) (o cl : UInt8) (fuel : Nat) {c c' : BCur} {x} (w : BWF segs c)
+theorem findClosure_facts (F : SegFacts src segs) (o cl : UInt8) (hcl : cl ≠ 32) (fuel : Nat) {c c' : BCur} {x} (w : BWF segs c)
     (e : findClosure (BCur.ops src segs) fuel o cl linkFindClosureOptions c = .ok (x, c')) :
     (x.2 = true → c'.ln < BCur.k segs) ∧ (∀ s ∈ x.1.getD [], c.p ≤ s.start ∧ s.start ≤ s.stop) := by
   unfold findClosure at e
@@ -219,7 +236,7 @@ theorem findClosure_facts (F : SegFacts src segs) (o cl : UInt8) (fuel : Nat) {c
   | error er => rw [hl] at e; simp [bind, Except.bind] at e
   | ok y =>
     obtain ⟨y1, c1⟩ := y
-    have hp := fcl_facts F o cl linkFindClosureOptions c.p fuel 1 0 none c y1 c1 w (Int.le_refl _)
+    have hp := fcl_facts F o cl hcl linkFindClosureOptions c.p fuel 1 0 none c y1 c1 w (Int.le_refl _)
       (by intro s hs; simp at hs) hl
     rw [hl] at e
     simp only [bind, Except.bind, linkFindClosureOptions, Bool.not_true, Bool.false_eq_true, if_false, pure, Except.pure] at e
